@@ -30,7 +30,9 @@ RULE = ("cases = (a) system x all k of the alphabet (7 k x 6 G-shifts) for the b
         "for AHC above all bands; (c) every model of the 2D parameter grids x every filling, kept when the indirect gap "
         ">= 0.3 (others are reported as trivial). non-trivial = (a,b) some band has |Omega_n| > 1e-6 so that the sum is a "
         "real cancellation, counted per system; (c) gapped case with Chern number != 0, counted per (model family, "
-        "parameters, filling); C = 0 cases are run and judged but not counted")
+        "parameters, filling); C = 0 cases are run and judged but not counted; (d) every sequence of 2 (thorough: 3) runs over a "
+        "5-letter alphabet of (model, NKdiv, NKFFT) that share one dictionary of AHC calculators (tetra and not): every run "
+        "equals the run with a fresh calculator")
 ASSUMPTIONS = [
     "quantisation: 'adequate grid' is fixed to NK=96 (48 for the two-grid comparison); models with indirect gap < 0.3 "
     "(in units where |hop1| = 1) are excluded, not explored",
@@ -109,6 +111,9 @@ def cases(tier, seed):
             yield {"kind": "chern", "model": ["stack", m1, m2, lat, cen], "NK": nks}
     for b in ("KaneMele_even", "KaneMele_odd"):
         yield {"kind": "chern", "model": [b], "NK": nks}
+    # (d) one calculator object used for several runs (grid-convergence loops, scans over models)
+    for first in range(len(REUSE_LETTERS)):
+        yield {"kind": "reuse", "first": first, "depth": 2 if quick else 3}
 
 
 # ----------------------------------------------------------------------------------------- systems
@@ -334,7 +339,65 @@ def run_chern(case, seed):
     return {"ok": True, "nontrivial": nt if nt else False, "obs": obs}
 
 
+# (d) every ordered pair (and, thorough, triple) of runs that share ONE dictionary of AHC calculators: each run must
+#     give what a fresh calculator gives for the same (model, grid) -- the quantised value included
+REUSE_LETTERS = [
+    (["qwz", -1.5, "sc", "generic"], [3, 3, 1], [4, 4, 1]),
+    (["qwz", -1.5, "sc", "generic"], [2, 2, 1], [6, 6, 1]),          # same k-points, other FFT grid
+    (["qwz", -1.5, "hex", "generic"], [3, 3, 1], [4, 4, 1]),         # other cell volume
+    (["Haldane_tbm", 0.2, 0.15, "pi/2"], [2, 2, 1], [5, 5, 1]),      # other model, volume and FFT grid
+    (["stack", 1.2, -1.0, "sc", "generic"], [2, 2, 1], [6, 6, 1]),    # other number of bands
+]
+REUSE_EF = np.linspace(-6.0, 6.0, 25)
+
+
+def run_reuse(case, seed, depth=2):
+    import wannierberri as wb
+    from wannierberri.calculators import static
+    from wbmc import berry_harness as bh
+
+    def calcs():
+        return {"ahc": static.AHC(Efermi=REUSE_EF, print_comment=False),
+                "ahc_tetra": static.AHC(Efermi=REUSE_EF, tetra=True, print_comment=False)}
+
+    systems = {}
+
+    def one(letter, cc, tmp):
+        model, div, fft = REUSE_LETTERS[letter]
+        key = repr(model)
+        if key not in systems:
+            systems[key] = build_chern_model(model, seed)
+        s = systems[key]
+        res = bh.tmp_run(s, wb.Grid(s, NKdiv=div, NKFFT=fft), cc, tmp)
+        return {k: np.array(res.results[k].data) for k in cc}
+
+    n = len(REUSE_LETTERS)
+    nexec = 0
+    with bh.case_tmpdir() as tmp:
+        fresh = {i: one(i, calcs(), tmp) for i in range(n)}
+        scale = {i: {k: max(np.abs(v).max(), 1e-300) for k, v in fresh[i].items()} for i in range(n)}
+        for rest in itertools.product(range(n), repeat=depth - 1):
+            seq = (case["first"],) + rest
+            shared = calcs()
+            for pos, letter in enumerate(seq):
+                got = one(letter, shared, tmp)
+                nexec += 1
+                for k in got:
+                    err = np.abs(got[k] - fresh[letter][k]).max() / scale[letter][k]
+                    if not err <= 1e-12:
+                        return {"ok": False, "key": f"AHC:calculator_reuse:{k}",
+                                "detail": f"one calculator object used for the runs {[REUSE_LETTERS[i] for i in seq[:pos + 1]]}: "
+                                          f"the last run differs from a fresh calculator by {err:.3g} (relative); e.g. "
+                                          f"{np.ravel(got[k])[np.argmax(np.abs(np.ravel(got[k] - fresh[letter][k])))]!r} vs "
+                                          f"{np.ravel(fresh[letter][k])[np.argmax(np.abs(np.ravel(got[k] - fresh[letter][k])))]!r}",
+                                "replay_case": dict(case)}
+    return {"ok": True, "nontrivial": ("reuse", case["first"]), "obs": {"sequences": n ** (depth - 1), "runs": nexec},
+            "states": n ** (depth - 1), "transitions": nexec}
+
+
 def run_case(case, seed):
+    if case["kind"] == "reuse":
+        return run_reuse(case, seed, depth=case.get("depth", 2))
     if case["kind"] == "sum_k":
         return run_sum_k(case, seed)
     if case["kind"] == "ahc_top":
